@@ -36,6 +36,9 @@ type c14Rule struct {
 type c14Cases struct {
 	Seed   int64               `json:"seed"`
 	Events map[string][]string `json:"events"`
+	// event sets whose events must be decoded from their JSON text again before every evaluation series, so that
+	// string nodes start in their escaped form (field ops unescape insane-json nodes in place)
+	Fresh []string `json:"fresh"`
 }
 
 type c14Cond struct {
@@ -78,7 +81,15 @@ func c14Bits(b []bool) string {
 	return string(s)
 }
 
-func c14RunRule(r *c14Rule, roots []*insaneJSON.Root, perm []int) (out c14Out) {
+func c14Redecode(roots []*insaneJSON.Root, evs []string) {
+	for i, e := range evs {
+		if err := roots[i].DecodeString(e); err != nil {
+			panic("harness: " + err.Error())
+		}
+	}
+}
+
+func c14RunRule(r *c14Rule, roots []*insaneJSON.Root, perm []int, fresh []string) (out c14Out) {
 	out.ID, out.Kind = r.ID, r.Kind
 	defer func() {
 		if p := recover(); p != nil {
@@ -99,8 +110,14 @@ func c14RunRule(r *c14Rule, roots []*insaneJSON.Root, perm []int) (out c14Out) {
 		}
 		r1 := make([]bool, len(roots))
 		r2 := make([]bool, len(roots))
+		if fresh != nil {
+			c14Redecode(roots, fresh)
+		}
 		for i, root := range roots {
 			r1[i] = chk.Check(doif.NewEventData(root))
+		}
+		if fresh != nil {
+			c14Redecode(roots, fresh)
 		}
 		for _, i := range perm {
 			r2[i] = chk.Check(doif.NewEventData(roots[i]))
@@ -148,6 +165,10 @@ func TestVerifC14(t *testing.T) {
 	}
 	roots := map[string][]*insaneJSON.Root{}
 	perms := map[string][]int{}
+	isFresh := map[string]bool{}
+	for _, k := range cs.Fresh {
+		isFresh[k] = true
+	}
 	rng := rand.New(rand.NewSource(cs.Seed))
 	for k, evs := range cs.Events {
 		rs, err := c14Decode(evs)
@@ -189,7 +210,11 @@ func TestVerifC14(t *testing.T) {
 			perms[r.Set] = perm
 		}
 		rng.Shuffle(len(perm), func(a, b int) { perm[a], perm[b] = perm[b], perm[a] })
-		out := c14RunRule(&r, rs, perm)
+		var fresh []string
+		if isFresh[r.Set] {
+			fresh = cs.Events[r.Set]
+		}
+		out := c14RunRule(&r, rs, perm, fresh)
 		if err := enc.Encode(&out); err != nil {
 			t.Fatal(err)
 		}
